@@ -94,7 +94,8 @@ class Fn:
 class Impl:
     """A braced container in the repo (impl / trait) of which selected functions are emitted."""
 
-    def __init__(self, scope, fns, header=None, extra=''):
+    def __init__(self, scope, fns, header=None, extra='', lift=None):
+        self.lift = lift         # emit the selected methods as free functions named lift+name (no impl block)
         self.scope = scope       # regex of the header, e.g. r'impl\s+Profile\s+for\s+Nickname\b'
         self.fns = fns
         self.header = header     # override header text (None = copy from repo)
@@ -275,15 +276,23 @@ class Emitter:
             self.emit_fn(src, it, mod)
         elif isinstance(it, Impl):
             hs, o, c = rs.find_block(src.text, src.mask, it.scope)
-            if it.header is None:
-                self.repo_chunk(src, hs, o + 1)
+            if it.lift is not None:
+                self.add('// methods of `%s` lifted to free functions (prefix %s)\n' % (src.text[hs:o].strip(), it.lift))
+                self.rewrite_counts['A.lift'] = self.rewrite_counts.get('A.lift', 0) + len(it.fns)
+                for f in it.fns:
+                    f.scope = it.scope
+                    f.rename = it.lift + f.name
+                    self.emit_fn(src, f, mod)
             else:
-                self.add(it.header + ' {')
-            self.add('\n' + it.extra + '\n')
-            for f in it.fns:
-                f.scope = it.scope
-                self.emit_fn(src, f, mod)
-            self.add('}\n')
+                if it.header is None:
+                    self.repo_chunk(src, hs, o + 1)
+                else:
+                    self.add(it.header + ' {')
+                self.add('\n' + it.extra + '\n')
+                for f in it.fns:
+                    f.scope = it.scope
+                    self.emit_fn(src, f, mod)
+                self.add('}\n')
             # report dropped members
             names = set(re.findall(r'\bfn\s+(\w+)', src.mask[o:c]))
             kept = {f.name for f in it.fns}
@@ -329,6 +338,9 @@ class Emitter:
 
         for at in f.attrs:
             self.add(at + '\n')
+        if f.rename:
+            nm = re.compile(r'\bfn\s+(' + re.escape(f.name) + r')\b').match(m, fn_kw)
+            rep(nm.start(1), nm.end(1), [Chunk(f.rename, 'rewrite', item=item)])
         if f.mode == 'sig':
             self.add('#[verifier::external_body]\n')
 
